@@ -138,6 +138,8 @@ def main(argv=None):
         armed="interrupts_armed", fired="interrupts_fired", swallowed_by_library="interrupts_swallowed")
     _fk("graphical-lasso solver stub (raises / returns NaN, inf, indefinite, slightly negative)", fired="glasso_stub_fired")
     _fk("ARPACK eigsh: forced ArpackNoConvergence", fired="eigsh_forced_noconv", eigsh_calls="eigsh_calls")
+    _fk("dense symmetric eigensolver (scipy.linalg.eigh called from lfda): forced LinAlgError",
+        fired="eigh_forced_linalgerror")
     _fk("process restart (pickle round trip, same process)", fired="restart_inproc")
     _fk("process restart (fresh interpreter, other PYTHONHASHSEED)", fired="restart_fresh")
     _fk("fresh-interpreter repetition of seeded calls", fired="fresh_process_checked")
